@@ -56,7 +56,14 @@ impl IssuedCase {
             let by_disc: std::collections::HashMap<String, String> = ps.into_iter().map(|p| (p.disc, p.path)).collect();
             let ids: Vec<usize> = self.marks.iter().map(|m| m.id).collect();
             for id in ids {
-                if let Some(p) = by_disc.get(&self.disc_of(id)) { self.reported.insert(id, p.clone()); }
+                // taken over only when it is one of the two pointers a holder can legitimately report for this
+                // node (its place in the signed payload / in the claims): a path that is neither is not used, so
+                // that redacting the right pointer shows the holder does not know the claim by it
+                let payload_ptr = self.spec_disc(id)["path"].as_str().unwrap_or("").to_string();
+                let claims_ptr = self.marks.iter().find(|m| m.id == id).map(|m| m.path.clone()).unwrap_or_default();
+                if let Some(p) = by_disc.get(&self.disc_of(id)) {
+                    if *p == payload_ptr || *p == claims_ptr { self.reported.insert(id, p.clone()); }
+                }
             }
         }
     }
@@ -81,7 +88,9 @@ pub fn gen_own_case_min(rng: &mut Rng, thorough: bool, index: u64, sentinels: bo
     };
     let mut cfg = cfg;
     if min_marks == 0 && rng.chance(1, 2) { cfg.mark_pct = 0; }
-    let tree = gen_tree(rng, &cfg, min_marks);
+    let mut tree = gen_tree(rng, &cfg, min_marks);
+    // one token in eight says it was issued in the future (`iat` ahead of every clock involved)
+    if !sentinels && rng.chance(1, 8) { tree.set_top_member("iat", json!(4_102_444_800u64)); }
     let marks = tree.marks();
     let order = descendants_first_order(&marks, rng);
     let decoy: Value = match rng.below(4) {
@@ -109,7 +118,12 @@ pub fn gen_ref_case(rng: &mut Rng, thorough: bool, kb_pct: u32) -> Value {
         reference: true,
         sentinels: false,
     };
-    let tree = gen_tree(rng, &cfg, 1);
+    let mut cfg = cfg;
+    // one reference token in ten hides nothing (digest lists hold decoys only): nothing for the holder to place
+    let none_hidden = rng.chance(1, 10);
+    if none_hidden { cfg.mark_pct = 0; }
+    let mut tree = gen_tree(rng, &cfg, if none_hidden { 0 } else { 1 });
+    if rng.chance(1, 8) { tree.set_top_member("iat", json!(4_102_444_800u64)); }
     let n = tree.marks().len();
     let mut perm: Vec<usize> = (0..n).collect();
     rng.shuffle(&mut perm);
@@ -167,6 +181,8 @@ pub fn issue_own(ctx: &mut Ctx, case: &Value, entry_prop: &str) -> Option<Issued
         header: Some(header),
         exp_in: if exp { Some(3600) } else { None },
         repeats: 1 + reissue,
+        // every other re-issuing case marks only some of the paths before the earlier encode() calls
+        late_marks: if reissue >= 1 && paths.len() >= 2 && crate::report::hash_of(&json!(paths)) % 2 == 0 { 1 + (crate::report::hash_of(&json!(paths)) / 2) as usize % (paths.len() - 1) } else { 0 },
     };
     let issued = real::issue(&req, &enc);
     let token = match &issued {
